@@ -113,6 +113,42 @@ func genC12(tier string, rng *Rng) {
 		add("silence", nil, 300, true, entry)
 		add("silence", nil, 2400, true, entry)
 	}
+	// two connections: what is handed to EACH onconnect depends only on that connection's reply
+	{
+		type rep struct {
+			name  string
+			items []Item
+		}
+		errR := rep{"err", []Item{textItem("ErrorMsg=Panel is busy\n")}}
+		rdyR := rep{"rdy", []Item{textItem("RDY\n")}}
+		ackR := rep{"ack", []Item{{Kind: "f", Data: Lit(ackPayload)}}}
+		silR := rep{"silence", nil}
+		for _, pair := range [][2]rep{{errR, rdyR}, {errR, ackR}, {errR, silR}, {rdyR, errR}, {ackR, errR}, {errR, {"err2", []Item{textItem("ErrorMsg=Locked\n")}}}} {
+			mk := func(r rep, closeAt int) ConnScript {
+				cs := ConnScript{Items: r.items, End: "none"}
+				if len(r.items) > 0 {
+					cs.Segs = []SegCut{{0, 1 << 30}}
+				}
+				if closeAt > 0 {
+					cs.End, cs.EndT = "close", closeAt
+				}
+				return cs
+			}
+			first := mk(pair[0], 60)
+			// first connection: binary -> disconnect at 60, redial 1060; ASCII -> EOF 60, disconnect 1060, redial 2060
+			redial := 2060
+			if pair[0].name == "ack" {
+				redial = 1060
+			}
+			t0 := 0
+			if pair[1].name == "silence" {
+				t0 = 2000
+			}
+			sc := &Scenario{ID: fmt.Sprintf("client-two-%s-%s", pair[0].name, pair[1].name), Entry: "client", Conns: []ConnScript{first, mk(pair[1], 0)}, Cancel: redial + t0 + 700}
+			scs = append(scs, sc)
+			hist["two-connections"]++
+		}
+	}
 	if tier == "thorough" {
 		for k := 0; k < 96; k++ {
 			var b []byte
